@@ -272,6 +272,14 @@ Fixpoint timeout_victim (t : list tev) : option nat :=
   match t with [] => None | TW q _ _ :: _ => Some q | TE q _ :: _ => Some q | _ :: r => timeout_victim r end.
 
 (* ares_dns_query_reply_tostatus (a switch: outside the subset of gen/c2gallina.py, hand-modelled) *)
+(* ares_probe_failed_server decided to probe: a query id is drawn (possibly several times, when
+   the id is in use) and, unlike for every other request, the query cache is not consulted *)
+Fixpoint probe_ahead (t : list tev) : bool :=
+  match t with
+  | TI _ :: ((TI _ :: _) as r) => probe_ahead r
+  | TI _ :: TD _ :: _ => true
+  | _ => false end.
+
 Definition tostatus (rcode ancount : nat) : Z :=
   match rcode with
   | 0 => if Nat.ltb 0 ancount then ARES_SUCCESS else ARES_ENODATA
@@ -516,10 +524,8 @@ with send_query_write (fuel : nat) (qo : obj) (opened : bool) {struct fuel} : M 
       let! q := get_query qo in
       store qo (CQuery (set_q_conn (Some co) (set_q_tcp tcp q))) ;;
       (* ares_probe_failed_server *)
-      let! e3 := peek in let! e4 := peek2 in
-      (match e3, e4 with
-       | Some (TI _), Some (TD _) => let! _ := send_nolock f KProbe true in ret tt
-       | _, _ => ret tt end) ;;
+      let! s := get in
+      (if probe_ahead (st_tape s) then let! _ := send_nolock f KProbe true in ret tt else ret tt) ;;
       ret ARES_SUCCESS
     else if zeqb wrc ARES_ENOMEM then
       end_query f qo wrc (res wrc) ;; ret wrc
@@ -674,99 +680,6 @@ with cancel_loop_pinned (fuel : nat) (nodes : list obj) {struct fuel} : M unit :
       invoke f (q_cb q) (res ARES_ECANCELLED) ;;
       free_query qo ;;
       cancel_loop_pinned f rest
-  end end
-
-(* read_answers *)
-with read_answers (fuel : nat) (co : obj) {struct fuel} : M unit :=
-  match fuel with O => fail OutOfFuel | S f =>
-  let! c := get_conn co in
-  (if fx_connread fx then store co (CConn (set_c_reading true c)) else ret tt) ;;
-  let! rq := read_loop f f co [] in
-  flush_requeue f rq
-  end
-
-(* the loop over buffered answers; returns the requeue array (qids) *)
-with read_loop (fuel : nat) (n : nat) (co : obj) (rq : list nat) {struct fuel} : M (list nat) :=
-  match fuel with O => fail OutOfFuel | S f =>
-  match n with O => fail OutOfFuel | S n' =>
-  (* ares_buf_tag(conn->in_buf) ... *)
-  let! c := get_conn co in
-  let! e := peek in let! e2 := peek2 in
-  match e, e2 with
-  | Some (TM qid sock a), _ =>
-      if negb (Nat.eqb sock (c_sock c)) then
-        (if fx_connread fx then store co (CConn (set_c_reading false c)) else ret tt) ;; ret rq else
-      let! _ := pop in
-      let! rq' := process_answer f co qid a rq in
-      (* back in read_answers *)
-      if fx_connread fx then
-        let! c := get_conn co in
-        if c_closed c then free_obj co ;; ret rq'
-        else read_loop f n' co rq'
-      else read_loop f n' co rq'
-  | Some TS, Some (TX sock st) =>
-      if negb (Nat.eqb sock (c_sock c)) then
-        (if fx_connread fx then store co (CConn (set_c_reading false c)) else ret tt) ;; ret rq else
-      (* read error, or process_answer failed (unparsable message): the connection is terminated *)
-      (if fx_connread fx then store co (CConn (set_c_reading false c)) else ret tt) ;;
-      handle_conn_error f co true st ;; ret rq
-  | _, _ =>
-      (if fx_connread fx then store co (CConn (set_c_reading false c)) else ret tt) ;; ret rq
-  end end end
-
-with flush_requeue (fuel : nat) (rq : list nat) {struct fuel} : M unit :=
-  match fuel with O => fail OutOfFuel | S f =>
-  match rq with
-  | [] => ret tt
-  | qid :: rest =>
-      let! s := get in
-      (match lookup qid (st_byqid s) with
-       | None => ret tt
-       | Some qo => let! _ := send_query f qo in ret tt end) ;;
-      flush_requeue f rest
-  end end
-
-(* process_answer for a response that matched query qid (same id, same question, arrived on query->conn) *)
-with process_answer (fuel : nat) (co : obj) (qid : nat) (a : ansinfo) (rq : list nat) {struct fuel} : M (list nat) :=
-  match fuel with O => fail OutOfFuel | S f =>
-  let! s := get in
-  match lookup qid (st_byqid s) with
-  | None => fail EDESYNC
-  | Some qo =>
-    let! q := get_query qo in
-    let! c := get_conn co in
-    if negb (match q_conn q with Some co' => Nat.eqb co co' | None => false end) then fail EDESYNC else
-    (* ares_cookie_validate *)
-    match find_tmr (st_tape s) with
-    | None => fail EDESYNC
-    | Some (vrc, requeued) =>
-      let! rq1 := (if requeued then
-                     let! st := requeue_query f qo ARES_SUCCESS false true (res ARES_SUCCESS) in
-                     if zeqb st ARES_SUCCESS then ret (rq ++ [qid]) else ret rq
-                   else ret rq) in
-      let! e := pop in
-      match e with
-      | TMR _ _ =>
-        if negb (zeqb vrc ARES_SUCCESS) then ret rq1 else
-        (* ares_llist_node_destroy(query->node_queries_to_conn) *)
-        let! c := get_conn co in
-        store co (CConn (set_c_queries (remove_nat qo (c_queries c)) c)) ;;
-        match classify a (c_tcp c) with
-        | DEdns => remove_from_conn qo ;; ret (rq1 ++ [qid])
-        | DTrunc =>
-            let! q := get_query qo in store qo (CQuery (set_q_tcp true q)) ;;
-            remove_from_conn qo ;; ret (rq1 ++ [qid])
-        | DServFail st =>
-            expect_TS ;;
-            let! rst := requeue_query f qo st true true {| r_status := st; r_rec := Some (a_rcode a, a_ancount a, qid) |} in
-            if zeqb rst ARES_SUCCESS then ret (rq1 ++ [qid]) else ret rq1
-        | DFinal =>
-            expect_TG ;;
-            end_query f qo ARES_SUCCESS {| r_status := ARES_SUCCESS; r_rec := Some (a_rcode a, a_ancount a, qid) |} ;;
-            ret rq1
-        end
-      | _ => fail EDESYNC end
-    end
   end end
 
 (* ---- ares_search.c ---- *)
@@ -934,6 +847,98 @@ with end_hquery (fuel : nat) (o : obj) (st : Z) {struct fuel} : M unit :=
   free_obj o
   end.
 
+
+(* ---------------------------------------------------------------------------------- *)
+(* read_answers / process_answer: not reachable from callbacks                          *)
+(* ---------------------------------------------------------------------------------- *)
+
+(* process_answer for a response that matched query qid (same id, same question, arrived on query->conn) *)
+Definition process_answer (fuel : nat) (co : obj) (qid : nat) (a : ansinfo) (rq : list nat) : M (list nat) :=
+  let f := fuel in
+  let! s := get in
+  match lookup qid (st_byqid s) with
+  | None => fail EDESYNC
+  | Some qo =>
+    let! q := get_query qo in
+    let! c := get_conn co in
+    if negb (match q_conn q with Some co' => Nat.eqb co co' | None => false end) then fail EDESYNC else
+    (* ares_cookie_validate *)
+    match find_tmr (st_tape s) with
+    | None => fail EDESYNC
+    | Some (vrc, requeued) =>
+      let! rq1 := (if requeued then
+                     let! st := requeue_query f qo ARES_SUCCESS false true (res ARES_SUCCESS) in
+                     if zeqb st ARES_SUCCESS then ret (rq ++ [qid]) else ret rq
+                   else ret rq) in
+      let! e := pop in
+      match e with
+      | TMR _ _ =>
+        if negb (zeqb vrc ARES_SUCCESS) then ret rq1 else
+        (* ares_llist_node_destroy(query->node_queries_to_conn) *)
+        let! c := get_conn co in
+        store co (CConn (set_c_queries (remove_nat qo (c_queries c)) c)) ;;
+        match classify a (c_tcp c) with
+        | DEdns => remove_from_conn qo ;; ret (rq1 ++ [qid])
+        | DTrunc =>
+            let! q := get_query qo in store qo (CQuery (set_q_tcp true q)) ;;
+            remove_from_conn qo ;; ret (rq1 ++ [qid])
+        | DServFail st =>
+            expect_TS ;;
+            let! rst := requeue_query f qo st true true {| r_status := st; r_rec := Some (a_rcode a, a_ancount a, qid) |} in
+            if zeqb rst ARES_SUCCESS then ret (rq1 ++ [qid]) else ret rq1
+        | DFinal =>
+            expect_TG ;;
+            end_query f qo ARES_SUCCESS {| r_status := ARES_SUCCESS; r_rec := Some (a_rcode a, a_ancount a, qid) |} ;;
+            ret rq1
+        end
+      | _ => fail EDESYNC end
+    end
+  end.
+
+(* the loop over buffered answers; returns the requeue array (qids) *)
+Fixpoint read_loop (fuel : nat) (n : nat) (co : obj) (rq : list nat) : M (list nat) :=
+  match n with O => fail OutOfFuel | S n' =>
+  (* ares_buf_tag(conn->in_buf) ... *)
+  let! c := get_conn co in
+  let! e := peek in let! e2 := peek2 in
+  match e, e2 with
+  | Some (TM qid sock a), _ =>
+      if negb (Nat.eqb sock (c_sock c)) then
+        (if fx_connread fx then store co (CConn (set_c_reading false c)) else ret tt) ;; ret rq else
+      let! _ := pop in
+      let! rq' := process_answer fuel co qid a rq in
+      (* back in read_answers *)
+      if fx_connread fx then
+        let! c := get_conn co in
+        if c_closed c then free_obj co ;; ret rq'
+        else read_loop fuel n' co rq'
+      else read_loop fuel n' co rq'
+  | Some TS, Some (TX sock st) =>
+      if negb (Nat.eqb sock (c_sock c)) then
+        (if fx_connread fx then store co (CConn (set_c_reading false c)) else ret tt) ;; ret rq else
+      (* read error, or process_answer failed (unparsable message): the connection is terminated *)
+      (if fx_connread fx then store co (CConn (set_c_reading false c)) else ret tt) ;;
+      handle_conn_error fuel co true st ;; ret rq
+  | _, _ =>
+      (if fx_connread fx then store co (CConn (set_c_reading false c)) else ret tt) ;; ret rq
+  end end.
+
+Fixpoint flush_requeue (fuel : nat) (rq : list nat) : M unit :=
+  match rq with
+  | [] => ret tt
+  | qid :: rest =>
+      let! s := get in
+      (match lookup qid (st_byqid s) with
+       | None => ret tt
+       | Some qo => let! _ := send_query fuel qo in ret tt end) ;;
+      flush_requeue fuel rest
+  end.
+
+Definition read_answers (fuel : nat) (co : obj) : M unit :=
+  let! c := get_conn co in
+  (if fx_connread fx then store co (CConn (set_c_reading true c)) else ret tt) ;;
+  let! rq := read_loop fuel fuel co [] in
+  flush_requeue fuel rq.
 
 (* ---------------------------------------------------------------------------------- *)
 (* Not mutually recursive: ares_destroy, ares_process_fds                              *)
